@@ -3,6 +3,7 @@ import PsVerif.Model.Observe
 import PsVerif.Model.AbsC06
 import PsVerif.Model.AbsMk
 import PsVerif.Model.AbsNg
+import PsVerif.Model.AbsAn
 /- line-protocol front end for the abstract-engine trace inclusion -/
 namespace PsVerif.Driver
 open PsVerif PsVerif.Gen PsVerif.Model.Abs
@@ -13,6 +14,7 @@ inductive AbsState where
   | c06 (sys : Sys Model.AbsC06.F) (S : List (MC Model.AbsC06.F))
   | mk (sys : Sys Model.AbsMk.F) (S : List (MC Model.AbsMk.F))
   | ng (sys : Sys Model.AbsNg.F) (S : List (MC Model.AbsNg.F))
+  | an (sys : Sys Model.AbsAn.F) (S : List (MC Model.AbsAn.F))
 
 def role? (s : String) : Option Role := Role.ofName s
 
@@ -39,6 +41,11 @@ def ngF? (s : String) : Option Model.AbsNg.F :=
   | some [a, b, c, d] => some ((((Model.AbsNg.F.init.setTimerArmed a).setRequestSent b).setCancelTried c).setCancelRecv d)
   | _ => Option.none
 
+def anF? (s : String) : Option Model.AbsAn.F :=
+  match bits? s with
+  | some [a, b, c, d] => some ((((Model.AbsAn.F.init.setAnchorRec a).setKeySent b).setPaidNoAnchor c).setAnchorMoved d)
+  | _ => Option.none
+
 def tableOf : Role → List Row := Gen.table
 
 def handleAbs (st : AbsState) : List String → Option (AbsState × String)
@@ -54,8 +61,16 @@ def handleAbs (st : AbsState) : List String → Option (AbsState × String)
     let r ← role? role
     let sys := Model.AbsNg.sys (tableOf r)
     pure (.ng sys [initMC sys], "ok")
+  | ["abs.reset", "An", role] => do
+    let r ← role? role
+    let sys := Model.AbsAn.sys (tableOf r)
+    pure (.an sys [initMC sys], "ok")
   | ["abs.persist", s, fl] =>
     match st with
+    | .an sys S => do
+      let s' ← St.ofName (if s == "-" then "" else s)
+      let S' := obsPersist sys S s' (← anF? fl)
+      pure (.an sys S', if S'.isEmpty then "REJECT" else "ok")
     | .ng sys S => do
       let s' ← St.ofName (if s == "-" then "" else s)
       let S' := obsPersist sys S s' (← ngF? fl)
@@ -71,6 +86,9 @@ def handleAbs (st : AbsState) : List String → Option (AbsState × String)
     | .none => some (st, "no-abstraction")
   | ["abs.crash"] =>
     match st with
+    | .an sys S =>
+      let S' := obsCrash sys S
+      some (.an sys S', if S'.isEmpty then "REJECT" else "ok")
     | .ng sys S =>
       let S' := obsCrash sys S
       some (.ng sys S', if S'.isEmpty then "REJECT" else "ok")
